@@ -97,7 +97,8 @@ struct MgrInst {
 };
 
 // Build the manager tables of a plan inside the obj arena.
-std::vector<MgrInst> build_managers(const std::vector<int>& kinds, const std::vector<int>& masks);
+std::vector<MgrInst> build_managers(const std::vector<int>& kinds, const std::vector<int>& masks, bool defer_completion = false);
+void complete_manager(MgrInst& m);   // MK_COMPLETED with deferred completion: run uriCompleteMemoryManager now
 
 // ------------------------------------------------------------------------------------------------
 template <class C> struct Exec {
